@@ -94,6 +94,36 @@ func progressStart(prefix []int) {
 	prog.start.Store(time.Now().UnixNano())
 }
 
+// progressStartBFS records a transition of an explicit-state search: the path from the initial state
+// and the operation about to be applied: "<flag><phase>\nB\n<init ids, comma separated>\n<ops>\n\x00".
+func progressStartBFS(tr Trace, op int) {
+	if prog.mem == nil {
+		return
+	}
+	b := prog.mem[:1]
+	b[0] = 'R'
+	b = append(b, prog.phase...)
+	b = append(b, "\nB\n"...)
+	for i, s := range tr.Init {
+		if i > 0 {
+			b = append(b, ',')
+		}
+		if len(b)+len(s) > progSize-256 {
+			b[0] = 0 // too large to record: no lone re-run for this one
+			return
+		}
+		b = append(b, s...)
+	}
+	b = append(b, '\n')
+	for _, o := range tr.Ops {
+		b = strconv.AppendInt(b, int64(o), 10)
+		b = append(b, ',')
+	}
+	b = strconv.AppendInt(b, int64(op), 10)
+	b = append(b, '\n', 0)
+	prog.start.Store(time.Now().UnixNano())
+}
+
 func progressEnd() {
 	if prog.mem == nil {
 		return
@@ -102,7 +132,71 @@ func progressEnd() {
 	prog.mem[0] = 0
 }
 
-// readProgress returns the execution a dead worker was running ("" phase if none).
+// loneSpec identifies one execution: a choice prefix (E1) or an initial state and an operation path (E2).
+type loneSpec struct {
+	Phase  string
+	Prefix []int
+	BFS    bool
+	Init   []string
+	Ops    []int
+	Stuck  bool
+	worker int
+}
+
+func parseInts(csv string) ([]int, bool) {
+	var r []int
+	if csv == "" {
+		return nil, true
+	}
+	for _, f := range strings.Split(csv, ",") {
+		n, err := strconv.Atoi(f)
+		if err != nil {
+			return nil, false
+		}
+		r = append(r, n)
+	}
+	return r, true
+}
+
+// readLone returns the execution a dead worker was running (nil if none).
+func readLone(path string) *loneSpec {
+	b, err := os.ReadFile(path)
+	if err != nil || len(b) < 4 || (b[0] != 'R' && b[0] != 'S') {
+		return nil
+	}
+	end := strings.IndexByte(string(b), 0)
+	if end < 0 {
+		return nil
+	}
+	parts := strings.Split(string(b[1:end]), "\n")
+	if len(parts) < 2 {
+		return nil
+	}
+	sp := &loneSpec{Phase: parts[0], Stuck: b[0] == 'S'}
+	if parts[1] == "B" {
+		if len(parts) < 4 {
+			return nil
+		}
+		sp.BFS = true
+		if parts[2] != "" {
+			sp.Init = strings.Split(parts[2], ",")
+		}
+		ops, ok := parseInts(parts[3])
+		if !ok {
+			return nil
+		}
+		sp.Ops = ops
+		return sp
+	}
+	pf, ok := parseInts(parts[1])
+	if !ok {
+		return nil
+	}
+	sp.Prefix = pf
+	return sp
+}
+
+// readProgress is readLone for choice-tree executions only (kept for callers that want the prefix).
 func readProgress(path string) (phase string, prefix []int, stuck bool) {
 	b, err := os.ReadFile(path)
 	if err != nil || len(b) < 4 || (b[0] != 'R' && b[0] != 'S') {
@@ -133,9 +227,34 @@ func readProgress(path string) (phase string, prefix []int, stuck bool) {
 // RunLoneExecution runs one execution (phase, prefix) of a check in this process and returns 0 when
 // the body returned (whatever it judged).
 func RunLoneExecution(id, tier, phase, csv string) int {
+	return RunLone(id, tier, phase, csv, "", false)
+}
+
+// RunLone is RunLoneExecution for both kinds: with bfs set, csv is the operation path and init the
+// comma-separated initial state.
+func RunLone(id, tier, phase, csv, init string, bfs bool) int {
 	ck := registry[id]
 	if ck == nil {
-		return 2
+		return 7
+	}
+	if bfs {
+		lim := syscall.Rlimit{Cur: 10 << 30, Max: 10 << 30}
+		syscall.Setrlimit(syscall.RLIMIT_AS, &lim)
+		ops, ok := parseInts(csv)
+		if !ok {
+			return 7
+		}
+		var ini []string
+		if init != "" {
+			ini = strings.Split(init, ",")
+		}
+		for _, ph := range ck.Phases(tier) {
+			if ph.Name == phase && ph.ReplayCustom != nil {
+				ph.ReplayCustom(Violation{Property: id, Detail: map[string]any{"trace_init": ini, "trace_ops": ops}})
+				return 0
+			}
+		}
+		return 7
 	}
 	lim := syscall.Rlimit{Cur: 10 << 30, Max: 10 << 30}
 	syscall.Setrlimit(syscall.RLIMIT_AS, &lim)
@@ -144,7 +263,7 @@ func RunLoneExecution(id, tier, phase, csv string) int {
 		for _, f := range strings.Split(csv, ",") {
 			n, err := strconv.Atoi(f)
 			if err != nil {
-				return 2
+				return 7
 			}
 			prefix = append(prefix, n)
 		}
@@ -157,20 +276,33 @@ func RunLoneExecution(id, tier, phase, csv string) int {
 		ex.run(prefix, false)
 		return 0
 	}
-	return 2
+	return 7
 }
 
 // decideLoneExecution re-runs the execution a dead or stuck worker was in, alone in a fresh process,
 // with twice the limit (a process that dies is run a second time). It returns how it failed ("" if it returned at least once).
 func decideLoneExecution(self, id, tier, phase string, prefix []int) string {
-	strs := make([]string, len(prefix))
-	for i, v := range prefix {
+	return decideLone(self, id, tier, &loneSpec{Phase: phase, Prefix: prefix})
+}
+
+func decideLone(self, id, tier string, sp *loneSpec) string {
+	phase := sp.Phase
+	ints := sp.Prefix
+	if sp.BFS {
+		ints = sp.Ops
+	}
+	strs := make([]string, len(ints))
+	for i, v := range ints {
 		strs[i] = strconv.Itoa(v)
 	}
 	how := ""
 	for i := 0; i < 2; i++ {
 		ctx, cancel := context.WithTimeout(context.Background(), 2*ExecLimit)
-		cmd := exec.CommandContext(ctx, self, "-lone", phase, "-prop", id, "-tier", tier, "-choices", strings.Join(strs, ","))
+		args := []string{"-lone", phase, "-prop", id, "-tier", tier, "-choices", strings.Join(strs, ",")}
+		if sp.BFS {
+			args = append(args, "-bfs-init", strings.Join(sp.Init, ","), "-bfs")
+		}
+		cmd := exec.CommandContext(ctx, self, args...)
 		cmd.Env = append(os.Environ(), "GOMAXPROCS=2", "GOMEMLIMIT=3GiB")
 		var sb strings.Builder
 		cmd.Stderr = &sb
@@ -179,6 +311,9 @@ func decideLoneExecution(self, id, tier, phase string, prefix []int) string {
 		cancel()
 		if err == nil {
 			return ""
+		}
+		if ee, ok := err.(*exec.ExitError); ok && ee.ExitCode() == 7 && !timedOut {
+			return "" // the execution cannot be identified or replayed: no verdict
 		}
 		if timedOut {
 			// one run of twice the limit, alone on its process, is the verdict for a hang
